@@ -15,9 +15,9 @@ package dbsim
 import (
 	"bytes"
 	"fmt"
-	"os"
 	"hash/fnv"
 	"math"
+	"os"
 	"sort"
 	"strconv"
 	"strings"
